@@ -6,4 +6,4 @@ mkdir -p $D && cp $WT/SEED/patch.diff $WT/SEED/demo.py $WT/SEED/meta.json $D/ 2>
 git -C $WT diff -- pysersic > $D/patch.diff
 echo "== patch"; cat $D/patch.diff | head -60
 echo "== demo WITH change"; (cd $WT && PYTHONPATH=$WT JAX_PLATFORMS=cpu timeout 900 /venv/bin/python -W ignore $D/demo.py > $D/demo_with.log 2>&1; rc=$?; echo "exit=$rc"; echo $rc > $D/demo_with.exit; tail -3 $D/demo_with.log)
-echo "== demo WITHOUT change"; (cd /repo && PYTHONPATH=/repo JAX_PLATFORMS=cpu timeout 900 /venv/bin/python -W ignore $D/demo.py > $D/demo_without.log 2>&1; rc=$?; echo "exit=$rc"; echo $rc > $D/demo_without.exit; tail -3 $D/demo_without.log)
+echo "== demo WITHOUT change"; (cd ${CLEAN:-/repo} && PYTHONPATH=${CLEAN:-/repo} JAX_PLATFORMS=cpu timeout 900 /venv/bin/python -W ignore $D/demo.py > $D/demo_without.log 2>&1; rc=$?; echo "exit=$rc"; echo $rc > $D/demo_without.exit; tail -3 $D/demo_without.log)
